@@ -19,7 +19,7 @@ future at an await point; its effect is exactly the drop glue in reverse order o
 for a future that is inside `.guarded()` nothing but the hand-over of the remaining steps to a
 detached continuation.
 
-Three toggles switch between the code as it is and the repaired code (`known_findings.d/C05.json`):
+Three toggles switch between the code as it WAS (before the fixes d8958c0, 7a67ce5, f2b6893) and the repaired code = the code NOW (`Cfg.fixed`) (`known_findings.d/C05.json`):
 
 * `f11` — `done_backward_projection` creates its batch inside the guarded block (as is: before the
           unguarded `upgrade_to_exclusive().await`);
@@ -46,7 +46,7 @@ structure Cfg where
 
 /-- the tree before any repair -/
 def Cfg.original : Cfg := ⟨false, false, false⟩
-/-- the code as it is now: F12 was repaired in /repo by 7a67ce5 (lock first; the rest of `input_session()` has
+/-- HISTORICAL name: the code as it was when this model was first written (F11, F40 unrepaired; since d8958c0 / f2b6893 the code is `Cfg.fixed`): F12 was repaired in /repo by 7a67ce5 (lock first; the rest of `input_session()` has
     no await any more — the model's guarded state `sG0` is passed without suspension) -/
 def Cfg.asIs : Cfg := ⟨false, true, false⟩
 def Cfg.fixed : Cfg := ⟨true, true, true⟩
